@@ -14,6 +14,10 @@
 (*                                          (synchronization vectors untouched)                                      *)
 (*   netB / netA  network_to_json before / after, one integer per element                                            *)
 (*   simB / simA  the process-wide simulation parameters (SimParams) before / after                                  *)
+(*   redesign     the run used planning(redesign=True);  red  one record per redesign it made: [id, given, changed,   *)
+(*                post, hasSolo, soloPost] - the request it was made for, the elements (indices into netB) it was       *)
+(*                given = the request's route and reverse route, the elements whose exported settings it changed, the    *)
+(*                digests of the given elements when it returned, and the same digests in the run of that request alone  *)
 (* Monitor-shaped: step k <= Len(ent) judges entry k, the last step judges the batch; `viol` accumulates             *)
 (* <<step, clause>>, the verdict line is printed when everything has been consumed.                                  *)
 EXTENDS PlanningOps, Json, IOUtils
@@ -52,8 +56,19 @@ C19Viol(tr, k) ==
        \cup (IF ~x.hasRow THEN {"CsvOneRowPerEntry"}
              ELSE CsvViol(o, x.e, x.row) \cup (IF x.row.idstr = x.e.idstr THEN {} ELSE {"CsvOneRowPerEntry"}))
 
+\* Planning.tla, variant Redesign: a redesign touches the route of its request only and leaves it as a design made for
+\* that request alone would; between the redesigns nothing changes a setting
+Changed(tr)      == {k \in 1..Len(tr.netB) : k > Len(tr.netA) \/ tr.netB[k] # tr.netA[k]}
+RedesignViol(tr) ==
+    (IF \A j \in 1..Len(tr.red) : SeqRange(tr.red[j].changed) \subseteq SeqRange(tr.red[j].given) THEN {}
+     ELSE {"OnlyRouteRedesigned"})
+    \cup (IF \A j \in 1..Len(tr.red) : tr.red[j].hasSolo => tr.red[j].post = tr.red[j].soloPost THEN {}
+          ELSE {"RedesignIsForTheRequest"})
+    \cup (IF Len(tr.netB) = Len(tr.netA) /\ Changed(tr) \subseteq UNION {SeqRange(tr.red[j].changed) : j \in 1..Len(tr.red)}
+          THEN {} ELSE {"NetworkFrozen"})
+
 BatchViol(tr) ==
-    (IF tr.netB = tr.netA THEN {} ELSE {"NetworkFrozen"})
+    (IF tr.redesign THEN RedesignViol(tr) ELSE IF tr.netB = tr.netA THEN {} ELSE {"NetworkFrozen"})
     \cup (IF tr.simB = tr.simA THEN {} ELSE {"SimParamsFrozen"})
     \* every request of the batch has exactly one result (C19 states it for the report; C16 needs it too: a request
     \* whose result is missing or paired with another request's is not "the same as computed alone")
